@@ -274,7 +274,7 @@ func Gen13(t *rapid.T) Case13 {
 		c.URL = B("http://example.com/" + strings.Repeat("a b ", rapid.IntRange(1, 7).Draw(t, "nerrs")) + "?q#f")
 	}
 	n := rapid.IntRange(1, 10).Draw(t, "nops")
-	spOps := []string{"append", "append", "delete", "set", "sort", "sortabs", "get", "has"}
+	spOps := []string{"append", "append", "delete", "set", "sort", "sortabs", "get", "has", "iterate"}
 	for i := 0; i < n; i++ {
 		o := Op13{Side: rapid.IntRange(0, 1).Draw(t, "side")}
 		switch k := rapid.IntRange(0, 9).Draw(t, "kind"); {
